@@ -12,6 +12,16 @@
    property demands); with TRUE they also depend on the object identity (owner) - the deviation
    TLC must refute (sabotage run).
 
+   Routes (round 5).  A tree reaches the printer by more than one route (FormatLaws.tla): as parsed ("ast"), or REBUILT
+   by a pass through ast.Modify that rewrites nothing ("modify": every input of a session that has a macro, every
+   quote()).  A rebuild copies the tree node by node; the containers of the tree (the pairs of a map literal) are kept
+   in a Go map next to the slice that remembers their source order, so a rebuild has a choice the parser does not
+   have: copy in source order (RebuildOrder = "source", the design the property demands: a rebuilt tree is the same
+   program and prints the same bytes) or in whatever order the container yields (RebuildOrder = "any": the deviation,
+   refuted by TLC in a second sabotage run - the bytes of the "modify" route then differ from run to run although
+   nothing else was parsed, which is why the SAME (mode, input) has to be observed repeatedly in one process and in
+   fresh processes, through every route).  Format(m, i) observes every route in Routes.
+
    hist is the history of operations; it is part of the state, so TLC explores ALL orders of the
    inputs and all interleavings with (repeated) formatting, and every maximal history is emitted
    for replay on the real code in a fresh process (GEN).                                          *)
@@ -20,11 +30,13 @@ EXTENDS Integers, Sequences, FiniteSets, TLC, Json, GrolPrims
 CONSTANTS NInputs,          \* inputs 1..NInputs
           MaxFmt,           \* at most this many Format operations per history
           InternDependent,  \* BOOLEAN, see above
+          Routes,           \* routes to the printer observed by every Format: subset of {"ast", "modify"}
+          RebuildOrder,     \* "source" | "any", see above
           EmitOn
 
 VARIABLES table,   \* literal -> owner input (the interning table)
           trees,   \* input -> sequence of token objects <<literal, owner>> ( <<>> = not parsed yet )
-          outs,    \* set of <<mode, input, bytes>> written so far
+          outs,    \* set of <<mode, input, route, bytes>> written so far
           hist     \* sequence of operations
 vars == <<table, trees, outs, hist>>
 
@@ -57,9 +69,16 @@ Parse(i) ==
 
 Bytes(m, tr) == IF InternDependent THEN <<m, tr>> ELSE <<m, [k \in 1..Len(tr) |-> tr[k][1]]>>
 
+\* the trees a pass through ast.Modify that rewrites nothing can return for tr
+Perms(n) == {p \in [1..n -> 1..n] : \A a, b \in 1..n : a # b => p[a] # p[b]}
+Rebuilds(tr) == IF RebuildOrder = "source" THEN {tr}
+                ELSE {[k \in 1..Len(tr) |-> tr[p[k]]] : p \in Perms(Len(tr))}
+TreeVia(r, tr, rb) == IF r = "modify" THEN rb ELSE tr
+
 Format(m, i) ==
   /\ trees[i] # <<>> /\ NumFmt < MaxFmt
-  /\ outs' = outs \cup {<<m, i, Bytes(m, trees[i])>>}
+  /\ \E rb \in Rebuilds(trees[i]) :
+       outs' = outs \cup {<<m, i, r, Bytes(m, TreeVia(r, trees[i], rb))>> : r \in Routes}
   /\ hist' = Append(hist, [op |-> "fmt", i |-> i, m |-> m])
   /\ UNCHANGED <<table, trees>>
 
@@ -73,7 +92,8 @@ Finish ==   \* emits the maximal history once
 Next == (\E i \in Inputs : Parse(i)) \/ (\E m \in Modes, i \in Inputs : Format(m, i)) \/ Finish
 
 \* the property: the bytes of Fmt(m, input) are a function of (m, input) only, i.e. they are what a
-\* fresh process that parses nothing but this input writes
+\* fresh process that parses nothing but this input writes - by whichever route the tree went to the printer
+\* (a rebuilt tree is the same program)
 Fresh(m, i) == Bytes(m, Intern(<<>>, Literals(i), i)[2])
-Deterministic == \A o \in outs : o[3] = Fresh(o[1], o[2])
+Deterministic == \A o \in outs : o[4] = Fresh(o[1], o[2])
 =============================================================================
